@@ -211,6 +211,17 @@ def main(argv):
             tasks.append(dict(module=modname, fn=c["fn"], shard=0, nshards=1,
                               budget=min(budget, 120), twin=True, kind="twin",
                               custom=False, per_path=c.get("per_path")))
+    # keep a thorough run inside a stated CPU envelope: nominal budgets are
+    # scaled down proportionally when their sum exceeds the cap (shards that
+    # finish early free their cores; a shard cut short is INCONCLUSIVE)
+    cap = float(os.environ.get("VERIF_CPU_CAP", "0") or 0) or (43200.0 if tier == "thorough" else 0.0)
+    total = sum(t["budget"] for t in tasks if not t["twin"])
+    scale = 1.0
+    if cap and total > cap:
+        scale = cap / total
+        for t in tasks:
+            if not t["twin"]:
+                t["budget"] = max(30, int(t["budget"] * scale))
     # long tasks first
     tasks.sort(key=lambda t: (-t["budget"], t["twin"]))
     ncpu = int(os.environ.get("VERIF_JOBS", "0") or 0) or (os.cpu_count() or 4)
@@ -390,6 +401,7 @@ def main(argv):
             "known_findings": kf_report,
             "smoke": smoke_report,
             "harness_errors": harness_errors,
+            "cpu_budget": {"nominal_total_s": total, "cap_s": cap, "scale": round(scale, 3)},
             "exhaustive": bool(obligations and discharged == obligations),
             "engine": getattr(mod, "ENGINE", "CrossHair 0.0.110 (symbolic execution "
                               "of the real lena byte-code) + z3"),
